@@ -425,6 +425,62 @@ impl TreeSys for Bools {
 
 /// aggregations of long structured series (DESIGN 5.14): 17 .. 4100 elements, so that an accumulation that
 /// is unrolled or processed in blocks is driven through its block boundaries
+/// constant series of a value that is not a dyadic rational (seed round 10): the one-pass variance cancels to a
+/// rounding residue of either sign. The sample variance is a sum of squares: never negative, and zero up to
+/// rounding at the value's magnitude; the standard deviation of two or more observations is not a null.
+fn check_constant(ctx: &mut Ctx) {
+    let fam = "numeric-constant";
+    for v in [0.1f64, 3.3, 99.99, 100.1, -100.1, 1000.1, 1234.567, 100000.1, 1000000.7] {
+        for n in 2usize..=12 {
+            for gaps in [false, true] {
+                let mut x: Vec<X> = vec![];
+                for i in 0..n {
+                    x.push(Some(v));
+                    if gaps && i % 2 == 0 {
+                        x.push(None);
+                    }
+                }
+                ctx.states += 1;
+                ctx.fam(fam).states += 1;
+                ctx.nontrivial(fam, hash_bytes(format!("{v}{n}{gaps}").as_bytes()));
+                let tol = 1e-9 * v * v;
+                for (tname, run) in [("f64", run_agg_valid::<f64> as RunV), ("Option<f64>", run_agg_valid::<Option<f64>>)] {
+                    for src in [Source::Owned, Source::TIter, Source::OptView, Source::Filtered] {
+                        for mp in [0usize, 2, n] {
+                            for op in [AggOp::VMeanVar(mp), AggOp::VVar(mp), AggOp::VStd(mp)] {
+                                let got = match run(op, &x, &[], src) {
+                                    Some(g) => g,
+                                    None => continue,
+                                };
+                                ctx.transitions += 1;
+                                ctx.eval(fam, outcome_hash(&got));
+                                let spread = match &got {
+                                    Outcome::Ok(c) => c.last().and_then(|c| c.num()),
+                                    _ => None,
+                                };
+                                let bound = if matches!(op, AggOp::VStd(_)) { tol.sqrt() } else { tol };
+                                let ok = matches!(spread, Some(s) if s >= 0.0 && s <= bound);
+                                if !ok {
+                                    ctx.violation(Violation {
+                                        entry: format!("{} (constant series)", op.name()),
+                                        finding: None,
+                                        size: n,
+                                        case: json!({"family": fam, "value": v, "n": n, "nulls_between": gaps, "elem": tname, "source": format!("{src:?}"), "min_periods": mp}),
+                                        expected: format!("a spread in [0, {bound:e}]: not negative, not null"),
+                                        got: show_outcome(&got),
+                                    });
+                                } else {
+                                    ctx.traces += 1;
+                                }
+                            }
+                        }
+                    }
+                }
+            }
+        }
+    }
+}
+
 fn aggs_long(thorough: bool, threads: usize) -> Ctx {
     use AggOp::*;
     let lens: Vec<usize> = if thorough { vec![17, 64, 257, 1030, 4100] } else { vec![17, 257, 1030] };
@@ -545,6 +601,7 @@ fn main() {
             "numeric-wide-sum" => wide_sum.check_word(&word, &mut ctx),
             "numeric-nan-kinds" => nan.check_word(&word, &mut ctx),
             "numeric-long" => ctx.merge(aggs_long(!run.quick(), 1)),
+            "numeric-constant" => check_constant(&mut ctx),
             _ => num.check_word(&word, &mut ctx),
         }
         std::process::exit(finish_replay(&run, &stored, ctx));
@@ -555,11 +612,16 @@ fn main() {
     total.merge(explore_tree(&wide_sum, run.threads));
     total.merge(explore_tree(&nan, run.threads));
     total.merge(aggs_long(!run.quick(), run.threads));
+    {
+        let mut c = Ctx::new();
+        check_constant(&mut c);
+        total.merge(c);
+    }
     total.merge(explore_tree(&pairs, run.threads));
     total.merge(explore_tree(&pairs_inf, run.threads));
     total.merge(explore_tree(&bools, run.threads));
     let meta = Meta {
-        rule: "history tree of every word over the value alphabet (numeric), over {null,0,1,3}^2 (two-series and masked aggregations), over {null,T,F} (any/all); every aggregation, every min_periods 0..=len+1, element types f64/f32/i32/Option<f64>/Option<i32>, sources owned / borrowed iterator / option view; compared with two-pass textbook definitions on the non-null sub-list, plus the permutation relation agg(word) == agg(sorted word) for the symmetric ones. Non-trivial = word with a non-null element. Also (DESIGN 5.15, 5.16): infinite observations for counts, positions and extrema (numeric-inf); NaN kinds (numeric-nan-kinds); sources of unknown announced length (filtered: hint (0,n); flat-mapped: hint (0,None)); i32 series whose sum leaves the type (numeric-wide-sum, aggregations with an f64 result). Round 8 (DESIGN 5.17): the convenience wrapper vcorr(other, min_periods: Option, Pearson) for omitted min_periods and 0..=len+1.".into(),
+        rule: "history tree of every word over the value alphabet (numeric), over {null,0,1,3}^2 (two-series and masked aggregations), over {null,T,F} (any/all); every aggregation, every min_periods 0..=len+1, element types f64/f32/i32/Option<f64>/Option<i32>, sources owned / borrowed iterator / option view; compared with two-pass textbook definitions on the non-null sub-list, plus the permutation relation agg(word) == agg(sorted word) for the symmetric ones. Non-trivial = word with a non-null element. Also (DESIGN 5.15, 5.16): infinite observations for counts, positions and extrema (numeric-inf); NaN kinds (numeric-nan-kinds); sources of unknown announced length (filtered: hint (0,n); flat-mapped: hint (0,None)); i32 series whose sum leaves the type (numeric-wide-sum, aggregations with an f64 result). Round 8 (DESIGN 5.17): the convenience wrapper vcorr(other, min_periods: Option, Pearson) for omitted min_periods and 0..=len+1. Round 9 (DESIGN 5.18): the masked aggregations n_sum_filter / vmean_filter on words with infinities (numeric-inf); infinities in the two-series statistics (pairs-inf).".into(),
         bounds: json!({"numeric": {"alphabet": json_word(&num.alpha), "L": num.max_len}, "pairs": {"alphabet": json_word(&pairs.alpha), "L": pairs.max_len}, "bools": {"L": bools.max_len},
                        "min_periods": "0..=len+1"}),
         assumptions: vec![
